@@ -230,6 +230,9 @@ class Interp:
             return x
         if z3.is_bv(x):
             return z3.BV2Int(x)
+        if z3.is_real(x):
+            # XLA converts float -> integer by truncation toward zero (values outside the integer range are outside the claim)
+            return z3.If(x >= 0, z3.ToInt(x), -z3.ToInt(-x))
         raise Unsupported("float->int conversion")
 
     # ------------------------------------------------------------- structure
